@@ -350,5 +350,4 @@ Proof.
   all: try (split_eqb; simpl in *; rw_pc; simpl in *;
             try (eapply ih2; eassumption); try (eapply if1; eassumption); try (eapply if2; eassumption);
             try (destruct (in_G (lp s)) eqn:EG; [specialize (ih eq_refl); congruence | reflexivity]); fail).
-  all: match goal with H : fp _ = ?p |- ?G => idtac "PC" p "|-" G end.
-Show. Abort.
+  Show 7. Show 17. Show 18. Abort.
